@@ -281,6 +281,9 @@ func (x *c16) bsonArm(spec c16BsonSpec, ops []c16Op, doc *ssa.Function) string {
 		if !ok || !net.eq(len1.add(linC(32))) {
 			return "net bits " + net.String()
 		}
+		if why := x.c16StripsOneNUL(rd[1].Call); why != "" {
+			return why
+		}
 		return named(rd[1])
 	case "binary":
 		if len(rd) != 3 || !isK(rd[0], "US", 32) || !isK(rd[1], "U", 8) || rd[2].Kind != "Raw" || !rd[2].Bits.eq(len1) {
@@ -343,4 +346,142 @@ func (x *c16) decodeRootOf(rel string) *ssa.Function {
 		}
 	}
 	return nil
+}
+
+// c16MapperFns resolves the mapper functions handed to a Field<reader> call through its variadic
+// argument: package-level mapper variables initialised from a function (scalar.StrFn(func…)) and
+// function literals converted in place.
+func (x *c16) c16MapperFns(call *ssa.Call) ([]*ssa.Function, string) {
+	a := call.Common().Args
+	if len(a) == 0 {
+		return nil, "no arguments"
+	}
+	sl, ok := a[len(a)-1].(*ssa.Slice)
+	if !ok {
+		return nil, "mapper argument is not a literal argument list"
+	}
+	al, ok := sl.X.(*ssa.Alloc)
+	if !ok {
+		return nil, "mapper argument is not a literal argument list"
+	}
+	var out []*ssa.Function
+	var fnOf func(v ssa.Value, d int) *ssa.Function
+	fnOf = func(v ssa.Value, d int) *ssa.Function {
+		if d > 6 {
+			return nil
+		}
+		switch y := v.(type) {
+		case *ssa.Function:
+			return y
+		case *ssa.MakeClosure:
+			f, _ := y.Fn.(*ssa.Function)
+			return f
+		case *ssa.ChangeType:
+			return fnOf(y.X, d+1)
+		case *ssa.Convert:
+			return fnOf(y.X, d+1)
+		case *ssa.MakeInterface:
+			return fnOf(y.X, d+1)
+		case *ssa.UnOp:
+			if g, ok := y.X.(*ssa.Global); ok && y.Op == token.MUL {
+				// the single store to the global in its package's init
+				var got *ssa.Function
+				n := 0
+				if init := g.Pkg.Func("init"); init != nil {
+					fw.EachInstr(init, func(ins ssa.Instruction) {
+						if st, ok := ins.(*ssa.Store); ok && st.Addr == ssa.Value(g) {
+							n++
+							got = fnOf(st.Val, d+1)
+						}
+					})
+				}
+				if n == 1 {
+					return got
+				}
+			}
+		}
+		return nil
+	}
+	for _, r := range *al.Referrers() {
+		ia, ok := r.(*ssa.IndexAddr)
+		if !ok {
+			continue
+		}
+		for _, rr := range *ia.Referrers() {
+			if st, ok := rr.(*ssa.Store); ok && st.Addr == ssa.Value(ia) {
+				f := fnOf(st.Val, 0)
+				if f == nil {
+					return nil, "a mapper of the value read is not resolvable to a function"
+				}
+				out = append(out, f)
+			}
+		}
+	}
+	if len(out) == 0 {
+		return nil, "no mapper found"
+	}
+	return out, ""
+}
+
+// c16StripsOneNUL: the mapper that removes a length-prefixed string's terminator removes exactly its
+// last byte: the only string surgery in it is strings.TrimSuffix(s, "\x00") or the slice s[:len(s)-1];
+// TrimRight/Trim/TrimFunc/TrimSpace (strip a run) or a cut at an index found by searching change a
+// value that itself ends in NUL bytes.
+func (x *c16) c16StripsOneNUL(call *ssa.Call) string {
+	fns, why := x.c16MapperFns(call)
+	if why != "" {
+		return why
+	}
+	strips := 0
+	for _, f := range fns {
+		bad := ""
+		var visit func(fn *ssa.Function)
+		visit = func(fn *ssa.Function) {
+			fw.EachInstr(fn, func(ins ssa.Instruction) {
+				switch y := ins.(type) {
+				case *ssa.Call:
+					cal := y.Common().StaticCallee()
+					if cal == nil || cal.Pkg == nil {
+						return
+					}
+					switch cal.Pkg.Pkg.Path() {
+					case "strings", "bytes":
+						if cal.Name() == "TrimSuffix" {
+							if c, ok := y.Common().Args[1].(*ssa.Const); ok && c.Value != nil && constant.StringVal(c.Value) == "\x00" {
+								strips++
+								return
+							}
+							bad = cal.Name() + " with a suffix other than one NUL"
+							return
+						}
+						bad = cal.Pkg.Pkg.Path() + "." + cal.Name() + " (only TrimSuffix(s, \"\\x00\") removes exactly the terminator)"
+					}
+				case *ssa.Slice:
+					if _, isStr := y.X.Type().Underlying().(*types.Basic); !isStr {
+						return
+					}
+					env := fw.NewPolyEnv(fn)
+					if y.Low == nil && y.High != nil {
+						d := env.Of(y.High).Sub(fw.PAtom("len(" + env.Of(y.X).String() + ")"))
+						if c, ok := d.IsConst(); ok && c == -1 {
+							strips++
+							return
+						}
+					}
+					bad = "a string slice other than s[:len(s)-1]"
+				}
+			})
+			for _, an := range fn.AnonFuncs {
+				visit(an)
+			}
+		}
+		visit(f)
+		if bad != "" {
+			return "the terminator mapper uses " + bad + ": a value that itself ends in NUL bytes loses them"
+		}
+	}
+	if strips == 0 {
+		return "no mapper of the value read removes the terminating NUL"
+	}
+	return ""
 }
